@@ -350,6 +350,8 @@ def _run_case(case):
                                      "polar": spn[name], "ref": float(rv)})
             for name in spn:
                 if name not in sr and not name.startswith("_") and all(ch.isalnum() or ch == "_" for ch in name):
+                    if isinstance(spn[name], float) and math.isnan(spn[name]) and any(not _is_tail(g) and len(g) == 1 and g[0][0] == name for g in goals):
+                        continue      # the goal column of a variable that has no value yet (checked below as a goal)
                     problems.append({"kind": "extra-variable", "sample": si, "iteration": it, "var": name})
             # -- oracle 4a: goal columns
             for g in goals:
@@ -362,6 +364,10 @@ def _run_case(case):
                         pv = v
                 if pv is None:
                     problems.append({"kind": "goal-missing", "goal": gt, "sample": si, "iteration": it})
+                elif any(name not in sr for name, _ in g):
+                    # a variable of the goal has not been assigned yet in this state: no number to report
+                    if not (isinstance(pv, float) and math.isnan(pv)):
+                        problems.append({"kind": "goal-value", "goal": gt, "sample": si, "iteration": it, "polar": pv, "ref": "undefined"})
                 elif not _close(pv, _goal_value(g, sr), scale ** sum(k for _, k in g)):
                     problems.append({"kind": "goal-value", "goal": gt, "sample": si, "iteration": it,
                                      "polar": pv, "ref": float(_goal_value(g, sr))})
